@@ -17,10 +17,12 @@ THEOREMS = ['Vakt.C03.scan_render', 'Vakt.C03.scan_complete', 'Vakt.C03.pieces_g
             'Vakt.Re.accepts_iff']
 # RegexChecker.fits and parser.get_tag_indices, translated from /repo in this run (harness/pytolean.py -> lean/Gen/Checkers.lean,
 # lean/Gen/Parser.lean), are the model's regexFits / tagIndices (lean/Gen/EquivRegexChecker.lean, lean/Gen/EquivParser.lean)
-EXTRA_BUILD = ['+Gen.EquivRegexChecker', '+Gen.EquivParser']
-GEN_IMPORTS = ['Gen.EquivRegexChecker', 'Gen.EquivParser']
+EXTRA_BUILD = ['+Gen.EquivRegexChecker', '+Gen.EquivParser', '+Gen.EquivCompile']
+GEN_IMPORTS = ['Gen.EquivRegexChecker', 'Gen.EquivParser', 'Gen.EquivCompile']
 GEN_THEOREMS = ['Vakt.GenEquiv.gen_RegexChecker_fits', 'Vakt.GenEquiv.translatedRegexChecker_covers',
-                'Vakt.GenEquiv.gen_get_tag_indices', 'Vakt.GenEquiv.translatedParser_covers']
+                'Vakt.GenEquiv.gen_get_tag_indices', 'Vakt.GenEquiv.translatedParser_covers',
+                # compile_regex itself: the slicing loop over the tag indices, each segment compiled on its own, the assembled pattern
+                'Vakt.GenEquiv.gen_compile_regex', 'Vakt.GenEquiv.gen_compile_regex_scan']
 FLOOR = {'quick': 3000, 'thorough': 50000}
 ASSUMPTIONS = ['segments outside the modelled regex subset (anchors, look-around, back-references, flags, possessive '
                'quantifiers) are judged by the direct oracle only',
